@@ -629,7 +629,9 @@ def weave_fn(src, loc, fc, origins, as_stub=False, canary=None):
         loops = _loops(ot, body_rel)
         for n in sorted(fc.loops, reverse=True):
             if n > len(loops):
-                raise Undecided('%s: loop %d not found (%d loops)' % (what, n, len(loops)))
+                # the loop a contract was written for is gone: weave without it; a failure in this function is then UNDECIDED
+                info.setdefault('lost_anchors', []).append('%s: loop %d not found (%d loops)' % (what, n, len(loops)))
+                continue
             kw, in_tok, brace = loops[n - 1]
             L = fc.loops[n]
             if 'body' in L:
